@@ -504,7 +504,7 @@ RULE_CONN = ("a Connection over a scripted ConnectionTransport / ConnectionHandl
              "history (announcements, dials with instants, registrations, OnConnect, finalize, releases, executions) is judged by "
              "the Lean monitors; distinct = distinct histories on which every monitor of this property holds")
 CONN = dict(mode="conn", n=(1500, 20000), judge="mon")
-prop("C14", lean=["FmpRpc.Tie.C14", "FmpRpc.Props.C14"],
+prop("C14", lean=["FmpRpc.Tie.C14", "FmpRpc.Props.C14", "FmpRpc.Props.C14ct"],
      runs=[dict(CONN), dict(mode="builtin", n=(400, 4000), judge="eq")],
      rule=RULE_CONN + " || builtin: the real plain and TLS connection transports over an in-memory dialer: random sequences of "
           "Dial (ok / refused / failing handshake), Finalize and Close in the order a Connection issues them; after every "
